@@ -933,6 +933,16 @@ def directed_programs():
     for inl in (False, True):
         fS2 = dict(fS); fS2['inline'] = inl
         mk('S_return_%d' % inl, [asg(V('d'), ('call', 'cnt', []))], funcs=[fS2])
+    # T. truth values and conditional expressions stored into 16-bit objects (both bytes), alone and as operands
+    for on, o in (('eq', '=='), ('ne', '!='), ('lt', '<'), ('ge', '>='), ('gt', '>'), ('le', '<='), ('and', '&&'), ('or', '||')):
+        tv = ('bin', o, V('a'), V('b'))
+        mk('T_store_%s' % on, [asg(V('s'), tv), asg(V('t'), ('bin', '+', tv, N(1))), asg(V('c'), tv)])
+        mk('T_add_%s' % on, [asg(V('s'), ('bin', '+', V('s'), tv)), asg(V('t'), ('bin', '-', N(1000), tv))])
+    for tn, (x1, x2) in (('vars', (V('t'), V('s'))), ('const', (N(1000), N(300))), ('mixed', (V('t'), N(7))), ('bytes', (V('b'), N(1000))), ('byte_byte', (V('b'), V('d')))):
+        mk('T_tern_%s' % tn, [asg(V('s'), ('tern', V('a'), x1, x2))])
+        mk('T_tern_cmp_%s' % tn, [asg(V('s'), ('tern', ('bin', '<', V('a'), V('b')), x1, x2)), asg(V('c'), ('tern', V('a'), V('b'), N(3)))])
+    mk('T_tern_nested', [asg(V('s'), ('tern', V('a'), ('tern', V('b'), N(300), N(400)), N(500)))])
+    mk('T_tern_add', [asg(V('s'), ('bin', '+', ('tern', V('a'), V('t'), N(256)), N(1)))])
     for n_, x in enumerate(('s', 't')):
         mk('N_first16_%s' % x, [('if', V('a'), asg(V('a'), N(7)), None), asg(V(x), N(500)), asg(V('b'), ('bin', '+', V(x), N(1))),
                                 asg(V('s' if x == 't' else 't'), ('bin', '+', V(x), N(300)))])
